@@ -71,7 +71,11 @@ class StepCase:
         out = E.Outcome()
         a_arr, b_arr = env.arr("a", SHAPE), env.arr("b", SHAPE)
         a, b = _leaf(Tn, a_arr, sp.get("computed_leaf")), Tn(b_arr, requires_grad=True)
-        nodes = template(sp["template"], a, b)
+        import contextlib
+        import synapgrad
+        # retain_all: the graph is computed, and differentiated, under retain_grads (every intermediate result keeps its gradient)
+        with (synapgrad.retain_grads() if sp["retain_all"] else contextlib.nullcontext()):
+            nodes = template(sp["template"], a, b)
         root = nodes[sp["root"]][1]
         pre = {}
         for name, t, mode in (("a", a, sp["pre_a"]), ("b", b, sp["pre_b"])):
@@ -85,8 +89,6 @@ class StepCase:
                 set_grad(t, snapshot(buf))
             if mode == "retained":
                 t.retain_grad()
-        import contextlib
-        import synapgrad
         with (synapgrad.retain_grads() if sp["retain_all"] else contextlib.nullcontext()):
             g = env.arr("g", root.shape, lo=-2, hi=2)
             root.backward(Tn(g))
